@@ -75,8 +75,12 @@ def check_trace(orc, idx, n, workdir, corrupt=None, tops=None):
     names = ["m%d" % i for i in range(n)]
     data = gridoracle.data_from_tables(tab, outlier_prob=0.2, names=names)
     name_to_idx = {nm: i for i, nm in enumerate(names)}
-    d = os.path.join(workdir, "t%d_%d" % (os.getpid(), idx))
+    # one directory per worker process, re-used for every trace that worker handles: the trace file is re-written at the
+    # SAME path again and again (as a long-lived driver does) and each command must summarise what the file holds now
+    d = os.path.join(workdir, "t%d" % os.getpid())
     os.makedirs(d, exist_ok=True)
+    for stale in os.listdir(d):
+        os.remove(os.path.join(d, stale))
     chains = []
     v = idx
     for ch in orc["trace"]:
